@@ -95,7 +95,26 @@ C13_PARTS = [
      "trace": {"module": "TraceRelabel.tla", "consts": _RL(2, 2, 3, 2, 3)}},
 ]
 
+C12_PARTS = [
+    {"name": "import_df", "driver": "import_df",
+     "design": {"module": "Import.tla", "invariants": ["Inv_Import"],
+                "consts": {"quick": {"MaxRows": "2", "Fixes": tlc.tla_set(["F11"])},
+                           "thorough": {"MaxRows": "3", "Fixes": tlc.tla_set(["F11"])}}},
+     "args": {"quick": {"maxrows": 2, "variants": [["identity", "-1"], ["renamed", "nan"], ["identity", "empty"]]},
+              "thorough": {"maxrows": 3, "variants": [["identity", "-1"], ["renamed", "nan"], ["renamed", "empty"]]}},
+     "trace": {"module": "TraceImport.tla",
+               "consts": {"quick": {"MaxRows": "2", "Fixes": tlc.tla_set(["F11"])},
+                          "thorough": {"MaxRows": "3", "Fixes": tlc.tla_set(["F11"])}}}},
+]
+
 PROPS = {
+    "C12": (C12_PARTS,
+            "all node tables up to the stated number of rows: every id-name assignment (duplicates), every parent reference (none / any row / "
+            "an unknown id / itself), every time assignment, integer (non-contiguous) and string ids, parent-none encoded as -1 / NaN / empty, "
+            "identity and renamed columns with composite position and a custom column, and every dropped / dangling required mapping; "
+            "non-trivial = malformed variant",
+            ["payload values are small integers (float formatting and dtype coercion of arbitrary reals are not decided)",
+             "DataFrame entry point (tracks_from_df); the GEFF store entry point is exercised by C14's round trips"]),
     "C13": (C13_PARTS,
             "all label arrays (2 frames, labels 0..3 incl. an unlisted one) x all injective assignments (time, seg id) -> node id over ids 0..3 "
             "(reused labels across frames, label = another node's id, permutations, id 0); non-trivial = id 0 present or a node id equal to a seg id of another slot",
